@@ -12,7 +12,7 @@ import (
 // ---------------------------------------------------------------------------
 // generator helpers shared by the properties
 
-var sqlstates = []string{"22012", "23505", "42601", "42P01", "XX000", "P0001", "0A000", "57014", "08006", "28P01"}
+var sqlstates = []string{"22012", "23505", "42601", "42P01", "XX000", "P0001", "0A000", "57014", "08006", "28P01", "40001", "40P01", "53300", "08000"}
 
 func genErrSpec(r *Rand) *ErrSpec {
 	e := &ErrSpec{Msg: "boom " + r.Str(r.Intn(12))}
